@@ -427,29 +427,49 @@ func c19HostIPChanged(c *Ctx) {
 	}
 	// additions
 	nAdd := 0
+	kinds := map[string]bool{}
 	for _, cs := range w.callsIn(f, "(*RoundRobinBackend).AddBackend") {
 		if !newLoop.inLoop(cs.In.Block()) {
 			c.bad(rule, "hostIPChanged/add-outside-loop", w.ipos(cs.In), "a backend is added outside the walk over the added addresses")
 			continue
 		}
 		nAdd++
-		var ctor *ssa.Call
-		for _, v := range phiLeaves(callArg(cs.In, 0)) {
-			cc, _ := callOfResult(v)
-			if cc != nil && (w.calleeName(cc) == "NewUDPBackend" || w.calleeName(cc) == "NewTCPBackend") {
-				ctor = cc
-			}
+		// the backend added: a constructor result, or several joined edge by edge with their errors (a shared
+		// "create a backend of this protocol" helper); each is checked under its own error test and protocol test
+		good := isParam(f, callArg(cs.In, -1), 0)
+		pairs := w.okPairs(f, cs.In, callArg(cs.In, 0))
+		if len(pairs) == 0 {
+			good = false
 		}
-		good := ctor != nil && isHP(ctor.Call.Args[1], newLoop) && isParam(f, ctor.Call.Args[0], 2) && w.requires(f, cs.In, errNil(ctor), true) && isParam(f, callArg(cs.In, -1), 0)
-		if good {
-			// protocol dispatch
-			want := map[string]string{"NewUDPBackend": "udp", "NewTCPBackend": "tcp"}[w.calleeName(ctor)]
-			proto := func(a Atom) bool { return a.Kind == "eqstr" && a.Str == want && isParam(f, a.X, 1) }
-			good = w.requires(f, ctor, proto, true)
+		for _, pr := range pairs {
+			leaves := []ssa.Value{pr.Val}
+			if pr.Err == nil {
+				leaves = phiLeaves(pr.Val)
+			}
+			for _, v := range leaves {
+				ctor, _ := callOfResult(v)
+				if ctor == nil || (w.calleeName(ctor) != "NewUDPBackend" && w.calleeName(ctor) != "NewTCPBackend") {
+					good = false
+					continue
+				}
+				okErr := false
+				if pr.Err != nil {
+					okErr = isResultOf(pr.Err, ctor, errIndex(ctor))
+				} else {
+					okErr = w.requires(f, pr.At, errNil(ctor), true)
+				}
+				want := map[string]string{"NewUDPBackend": "udp", "NewTCPBackend": "tcp"}[w.calleeName(ctor)]
+				proto := func(a Atom) bool { return a.Kind == "eqstr" && a.Str == want && isParam(f, a.X, 1) }
+				if okErr && isHP(ctor.Call.Args[1], newLoop) && isParam(f, ctor.Call.Args[0], 2) && w.requires(f, ctor, proto, true) {
+					kinds[want] = true
+				} else {
+					good = false
+				}
+			}
 		}
 		c.check(good, rule, fmt.Sprintf("hostIPChanged/add#%d", nAdd), w.ipos(cs.In), "each added address becomes a backend of the configured protocol at createHostPort(ip, port)", "an added address is not turned into New<proto>Backend(local, createHostPort(ip, port)) and added on success under the matching protocol")
 	}
-	c.check(nAdd == 2, rule, "hostIPChanged/add-sites", w.pos(f.Pos()), "udp and tcp additions", fmt.Sprintf("expected an AddBackend for udp and one for tcp, found %d", nAdd))
+	c.check(kinds["udp"] && kinds["tcp"] && nAdd <= 2, rule, "hostIPChanged/add-sites", w.pos(f.Pos()), "udp and tcp additions", fmt.Sprintf("expected the added addresses to become a udp backend under protocol udp and a tcp backend under protocol tcp (%d AddBackend site(s); udp %v, tcp %v)", nAdd, kinds["udp"], kinds["tcp"]))
 	for i, loop := range []*rangeLoop{newLoop, remLoop} {
 		c.check(len(loop.earlyExits()) == 0, rule, "hostIPChanged/every-address@"+w.ipos(loop.If), w.ipos(loop.If), "every address is processed", "the walk over the changed addresses can end early")
 		// both walks happen on every call: no return can be reached without passing the head of the walk
